@@ -16,6 +16,19 @@ pub struct AccSt {
 pub struct AccModel {
     pub bytes: Vec<u8>,
     pub prop: &'static str,
+    /// refine the key by the one-step behaviour over `boundary_bytes()` (state the hook cannot see)
+    pub refine: bool,
+}
+
+fn acc_sig(a: &Utf8Accum) -> u64 {
+    use std::hash::{Hash, Hasher};
+    let mut h = std::collections::hash_map::DefaultHasher::new();
+    for b in boundary_bytes() {
+        let mut c = a.clone();
+        c.push_byte(b).map(|s| s.as_bytes().to_vec()).hash(&mut h);
+        canon_acc(&c).hash(&mut h);
+    }
+    h.finish()
 }
 
 fn canon_acc(a: &Utf8Accum) -> ([u8; 4], u8, u8) {
@@ -81,7 +94,7 @@ fn judge_char(
 
 impl Model for AccModel {
     type State = AccSt;
-    type Key = (([u8; 4], u8, u8), StrictUtf8);
+    type Key = (([u8; 4], u8, u8), StrictUtf8, u64);
     type Event = u8;
 
     fn name(&self) -> String {
@@ -94,7 +107,7 @@ impl Model for AccModel {
         self.bytes.clone()
     }
     fn key(&self, s: &AccSt) -> Self::Key {
-        (canon_acc(&s.acc), s.r.clone())
+        (canon_acc(&s.acc), s.r.clone(), if self.refine { acc_sig(&s.acc) } else { 0 })
     }
     fn render_event(&self, e: &u8) -> String {
         format!("{:02X}", e)
@@ -124,15 +137,31 @@ pub struct DecSt {
 pub struct DecByteModel {
     pub bytes: Vec<u8>,
     pub prop: &'static str,
+    pub refine: bool,
 }
 
 fn canon_gen(g: &InputGenerator) -> (u8, u8, [u8; 4], u8, u8) {
     crate::session::canon_dec(g.__verif_state())
 }
 
+fn gen_sig(g: &InputGenerator) -> u64 {
+    use std::hash::{Hash, Hasher};
+    let mut h = std::collections::hash_map::DefaultHasher::new();
+    for b in boundary_bytes() {
+        let mut c = g.clone();
+        match c.accept(b) {
+            Some(Input::Char(s)) => (1u8, s.as_bytes().to_vec()).hash(&mut h),
+            Some(Input::Control(k)) => (2u8, ctl_name(k).as_bytes().to_vec()).hash(&mut h),
+            None => 0u8.hash(&mut h),
+        }
+        canon_gen(&c).hash(&mut h);
+    }
+    h.finish()
+}
+
 impl Model for DecByteModel {
     type State = DecSt;
-    type Key = ((u8, u8, [u8; 4], u8, u8), StrictUtf8, bool, bool);
+    type Key = ((u8, u8, [u8; 4], u8, u8), StrictUtf8, bool, bool, u64);
     type Event = u8;
 
     fn name(&self) -> String {
@@ -148,7 +177,7 @@ impl Model for DecByteModel {
         self.bytes.clone()
     }
     fn key(&self, s: &DecSt) -> Self::Key {
-        (canon_gen(&s.gen), s.r.clone(), s.csi, s.last_esc)
+        (canon_gen(&s.gen), s.r.clone(), s.csi, s.last_esc, if self.refine { gen_sig(&s.gen) } else { 0 })
     }
     fn render_event(&self, e: &u8) -> String {
         format!("{:02X}", e)
@@ -333,7 +362,7 @@ pub fn key_units(thorough: bool) -> Vec<Unit> {
 
 impl Model for DecUnitModel {
     type State = UnitSt;
-    type Key = ((u8, u8, [u8; 4], u8, u8), u8, bool);
+    type Key = ((u8, u8, [u8; 4], u8, u8), u8, bool, u64);
     type Event = Unit;
 
     fn name(&self) -> String {
@@ -346,7 +375,7 @@ impl Model for DecUnitModel {
         self.units.clone()
     }
     fn key(&self, s: &UnitSt) -> Self::Key {
-        (canon_gen(&s.gen), s.pending, s.last_lone_esc)
+        (canon_gen(&s.gen), s.pending, s.last_lone_esc, gen_sig(&s.gen))
     }
     fn render_event(&self, e: &Unit) -> String {
         format!("{:?}", e)
